@@ -45,7 +45,7 @@ func c06MakeEntry(dir, name, kind string, w *World) {
 func TestC06(t *testing.T) {
 	r := NewReporter(t)
 	defer r.Done()
-	r.Rule("directories with 0..3 entries of every kind combination (file, dir, symlink->file, symlink->dir, dangling, self-referencing link, link through a regular file) and name sets (ASCII, space, non-ASCII, 255 bytes, not valid UTF-8) x every interleaving of {ReadDir, ReadDirEntry, ReadDirEntryV2} of length <= entries+2 after OpenDir; entry-count families; Stat and GetDirSize on every path of every tree with <= 3 nodes; distinct by (directory shape, command sequence)")
+	r.Rule("directories with 0..3 entries of every kind combination (file, dir, symlink->file, symlink->dir, dangling, self-referencing link, link through a regular file) and name sets (ASCII, space, non-ASCII, 255 bytes, not valid UTF-8) x every interleaving of {ReadDir, ReadDirEntry, ReadDirEntryV2} of length <= entries+2 after OpenDir; entry-count families (1..40 / 1..300 contiguous, then powers of two +-1 up to 4097); Stat and GetDirSize on every path of every tree with <= 3 nodes; distinct by (directory shape, command sequence)")
 	w := newWorld(t, "srv/root")
 	defer w.Cleanup()
 	mkFileAbs(filepath.Join(w.Root, "targets", "tfile"), 1234, 7, baseTime.Add(time1(40)))
@@ -141,8 +141,22 @@ func TestC06(t *testing.T) {
 	if r.Thorough() {
 		maxN = 4096
 	}
+	// beyond the contiguous range: powers of two and their neighbours (chunked directory reads, 8/16-bit counters)
+	edge := map[int]bool{}
+	for _, p2 := range []int{64, 100, 128, 255, 256, 512, 1000, 1024, 2048, 3072, 4096} {
+		for d := -1; d <= 1; d++ {
+			edge[p2+d] = true
+		}
+	}
+	if maxN < 4097 {
+		maxN = 4097
+	}
+	contiguous := 40
+	if r.Thorough() {
+		contiguous = 300
+	}
 	for n := 1; n <= maxN; n++ {
-		if n > 300 && n%251 != 0 && n != 4096 && n != 4095 {
+		if n > contiguous && !edge[n] && (!r.Thorough() || n%251 != 0) {
 			continue
 		}
 		caseIdx++
@@ -161,6 +175,9 @@ func TestC06(t *testing.T) {
 		}
 		desc := sprintf("family entries=%d", n)
 		run(desc, []Req{mkReq(opOpenDir, "/L"), noargReq(opReadDir), noargReq(opReadDirEntry)})
+		if n > 1025 && !r.Thorough() {
+			continue // entry-by-entry enumeration of the largest directories only in the thorough tier
+		}
 		for _, op := range []uint16{opReadDirEntry, opReadDirEntryV2} {
 			reqs := []Req{mkReq(opOpenDir, "/L")}
 			for i := 0; i <= n+1; i++ {
